@@ -16,9 +16,15 @@ package bfe_http2
 // lets the writer finish: scheduleFrameWrite picks the next frame, and as long as the frame picked
 // carries END_STREAM the real wroteFrame runs (which closes the stream and schedules again).
 // Flush pseudo-frames are suppressed (needsFrameFlush is cleared): they carry no data.
+// Every frame handed to the writer is really written (wm.write.writeFrame through the real Framer into a
+// buffer) and what the harness reports — stream id, length, END_STREAM, payload — is read back from
+// those WIRE bytes; the payload is compared with the bytes the handler queued at that offset.
 // Add-only, compiled only with build tag "verif".
 
 import (
+	"bytes"
+	"encoding/binary"
+	"fmt"
 	"net"
 	"sort"
 	"time"
@@ -26,13 +32,19 @@ import (
 
 import (
 	http "github.com/bfenetworks/bfe/bfe_http"
+	"github.com/bfenetworks/bfe/bfe_http2/hpack"
 )
 
 type VerifC34 struct {
 	sc   *serverConn
 	peer net.Conn
-	lens map[int]int // message number -> original length
+	lens map[int]int   // message number -> original length
+	msgs map[*byte]int // address of a message buffer's LAST byte -> message number
+	wire bytes.Buffer  // what the real Framer wrote for the current frame
 }
+
+// verifC34Byte is the content of byte i of message msg.
+func verifC34Byte(msg, i int) byte { return byte((i + 31*msg) % 251) }
 
 // VerifC34Frame describes a frame handed to the writer.
 type VerifC34Frame struct {
@@ -62,7 +74,10 @@ func NewVerifC34() *VerifC34 {
 	sc.flow.add(initialWindowSize)
 	sc.inflow.add(initialWindowSize)
 	sc.writingFrame = true
-	return &VerifC34{sc: sc, peer: c2, lens: map[int]int{}}
+	v := &VerifC34{sc: sc, peer: c2, lens: map[int]int{}, msgs: map[*byte]int{}}
+	sc.framer = NewFramer(&v.wire, nil)
+	sc.hpackEncoder = hpack.NewEncoder(&sc.headerWriteBuf)
+	return v
 }
 
 func (v *VerifC34) Close() {
@@ -101,9 +116,12 @@ func (v *VerifC34) AddData(id uint32, msg, n int, end bool) bool {
 	}
 	p := make([]byte, n, n)
 	for i := range p {
-		p[i] = byte(msg)
+		p[i] = verifC34Byte(msg, i)
 	}
 	v.lens[msg] = n
+	if n > 0 {
+		v.msgs[&p[n-1]] = msg
+	}
 	v.sc.writingFrame = true
 	v.sc.writeFrame(frameWriteMsg{write: &writeData{streamID: id, p: p, endStream: end}, stream: st,
 		done: make(chan error, 1)})
@@ -117,7 +135,7 @@ func (v *VerifC34) AddHeaders(id uint32, end bool) bool {
 		return false
 	}
 	v.sc.writingFrame = true
-	v.sc.writeFrame(frameWriteMsg{write: &writeResHeaders{streamID: id, endStream: end}, stream: st})
+	v.sc.writeFrame(frameWriteMsg{write: &writeResHeaders{streamID: id, httpResCode: 200, endStream: end}, stream: st})
 	return true
 }
 
@@ -127,35 +145,94 @@ func (v *VerifC34) AddControl() {
 	v.sc.writeFrame(frameWriteMsg{write: writeSettingsAck{}})
 }
 
+type verifC34Wire struct {
+	typ, flags byte
+	id         uint32
+	payload    []byte
+}
+
+// write runs the real frame writer for wm and parses what it put on the wire.
+func (v *VerifC34) write(wm frameWriteMsg) ([]verifC34Wire, error) {
+	v.wire.Reset()
+	if err := wm.write.writeFrame(v.sc); err != nil {
+		return nil, err
+	}
+	b := v.wire.Bytes()
+	var out []verifC34Wire
+	for len(b) > 0 {
+		if len(b) < 9 {
+			return nil, fmt.Errorf("short frame header")
+		}
+		n := int(b[0])<<16 | int(b[1])<<8 | int(b[2])
+		if len(b) < 9+n {
+			return nil, fmt.Errorf("short frame")
+		}
+		out = append(out, verifC34Wire{b[3], b[4], binary.BigEndian.Uint32(b[5:]) & 0x7fffffff, append([]byte(nil), b[9:9+n]...)})
+		b = b[9+n:]
+	}
+	return out, nil
+}
+
 func (v *VerifC34) describe(wm frameWriteMsg) VerifC34Frame {
+	// identify message / offset from the slice BEFORE writing (the writer may not keep it)
+	msg, off := -1, 0
+	var queued []byte
+	if w, ok := wm.write.(*writeData); ok && len(w.p) > 0 {
+		full := w.p[:cap(w.p)]
+		if m, ok := v.msgs[&full[len(full)-1]]; ok {
+			msg = m
+			off = v.lens[m] - cap(w.p)
+		}
+		queued = w.p
+	}
+	fr, err := v.write(wm)
+	if err != nil {
+		return VerifC34Frame{Kind: "BAD-WRITE"}
+	}
 	if wm.stream == nil {
+		if len(fr) != 1 || fr[0].id != 0 && fr[0].typ != 3 {
+			return VerifC34Frame{Kind: "BAD-WIRE-CTL"}
+		}
 		return VerifC34Frame{Kind: "C"}
 	}
 	switch w := wm.write.(type) {
 	case *writeData:
-		f := VerifC34Frame{Kind: "D", ID: wm.stream.id, Len: len(w.p), End: w.endStream, Done: wm.done != nil, Msg: -1}
-		if w.streamID != wm.stream.id {
+		if len(fr) != 1 || fr[0].typ != 0 || fr[0].flags&^1 != 0 {
+			return VerifC34Frame{Kind: "BAD-WIRE-DATA"}
+		}
+		f := VerifC34Frame{Kind: "D", ID: fr[0].id, Len: len(fr[0].payload), End: fr[0].flags&1 != 0, Done: wm.done != nil, Msg: msg, Off: off}
+		if fr[0].id != wm.stream.id || w.streamID != wm.stream.id {
 			f.Kind = "BAD-ID"
 		}
-		if len(w.p) == 0 {
+		if f.Len == 0 {
 			f.Kind = "Z"
 			return f
 		}
-		// identify the message by content and the offset by the remaining capacity of the slice
-		for _, b := range w.p {
-			if b != w.p[0] {
-				f.Kind = "BAD-CONTENT"
-			}
-		}
-		f.Msg = int(w.p[0])
-		if total, ok := v.lens[f.Msg]; ok {
-			f.Off = total - cap(w.p)
-		} else {
+		if msg < 0 {
 			f.Kind = "BAD-MSG"
+			return f
+		}
+		if len(queued) != f.Len {
+			f.Kind = "BAD-WIRE-LEN"
+		}
+		for i, b := range fr[0].payload {
+			if b != verifC34Byte(msg, off+i) {
+				f.Kind = "BAD-CONTENT"
+				break
+			}
 		}
 		return f
 	case *writeResHeaders:
-		return VerifC34Frame{Kind: "H", ID: wm.stream.id, End: w.endStream}
+		if len(fr) == 0 || fr[0].typ != 1 || fr[len(fr)-1].flags&4 == 0 {
+			return VerifC34Frame{Kind: "BAD-WIRE-HEADERS"}
+		}
+		for _, x := range fr {
+			if x.id != wm.stream.id {
+				return VerifC34Frame{Kind: "BAD-ID"}
+			}
+		}
+		_ = w
+		return VerifC34Frame{Kind: "H", ID: fr[0].id, End: fr[0].flags&1 != 0}
 	}
 	return VerifC34Frame{Kind: "?"}
 }
